@@ -154,7 +154,8 @@ def run(tier):
     core.DEFAULT_FIELD_DIV = False
     run = Run(PROP, tier, 'proof')
     h = build()
-    msyn = h.monomorphise(['i32', 'f32'], bound='<S: BaseNum>', method_syntax='only', soft=True)
+    msyn = h.monomorphise(['i32', 'f32'], bound='<S: BaseNum>', kinds=None, method_syntax='only', soft=True)
+    msyn += h.monomorphise(['f32', 'f64'], bound='<S: BaseFloat>', kinds=None, method_syntax='only', soft=True)
     mono = h.monomorphise(['i32', 'u8', 'f32', 'f64'], bound='<S: BaseNum>') if tier == 'thorough' else []
     S, inv, meta = facts.extract(PROP, h.src())
     report_dropped(run, meta, h)
